@@ -441,6 +441,16 @@ func c05Worker(args []string) {
 					res.Issues = append(res.Issues, c05Issue{"negotiation", fnd, fmt.Sprintf("Produces %v Accept %q default=%q vnd=%v : %s", produces, accept, def, vnd, why), cs})
 				}
 				if si == 0 && why == "" && !strings.HasPrefix(key, "refused/") {
+					// compact output (PrettyPrintResponses off) must not change the representation chosen
+					restful.PrettyPrintResponses = false
+					o := c05Do(produces, accept, nil)
+					restful.PrettyPrintResponses = true
+					res.Dispatches++
+					if o.key() != key && len(res.Issues) < 60 {
+						res.Issues = append(res.Issues, c05Issue{"pretty-print-off", "", fmt.Sprintf("Produces %v Accept %q default=%q vnd=%v : answered %s; with PrettyPrintResponses off the answer is %s", produces, accept, def, vnd, key, o.key()), cs})
+					}
+				}
+				if si == 0 && why == "" && !strings.HasPrefix(key, "refused/") {
 					// the same entity on a response that already carries a Content-Type
 					for _, v := range []string{"y", "z"} {
 						c05Variant = v
@@ -526,6 +536,15 @@ func replayC05(detail json.RawMessage) error {
 		c05Variant = "x"
 	}
 	why, key := judgeC05(cs.Produces, cs.Accept, registered, keys)
+	if why == "" && !strings.HasPrefix(key, "refused/") {
+		restful.PrettyPrintResponses = false
+		o := c05Do(cs.Produces, cs.Accept, nil)
+		restful.PrettyPrintResponses = true
+		fmt.Printf("PrettyPrintResponses off: %s\n", o.key())
+		if o.key() != key {
+			return fmt.Errorf("answered %s, but %s with PrettyPrintResponses off", key, o.key())
+		}
+	}
 	if why == "" && !strings.HasPrefix(key, "refused/") {
 		for _, v := range []string{"y", "z"} {
 			c05Variant = v
